@@ -42,10 +42,10 @@ type inner struct {
 	Explicit bool     `json:"explicit"` // WriteHeader called explicitly before the first op
 	CT       bool     `json:"ct"`
 	CL       bool     `json:"cl"`
-	Pre      string   `json:"pre"`  // Content-Encoding the handler sets itself: none|gzip|br|zstd|deflate|identity
-	ETag     string   `json:"etag"` // none|strong|weak
-	Ops      []string `json:"ops"`  // wS (5 bytes) wL (100 bytes) wX (70000 bytes) w0 f
-	Sibs     []string `json:"sibs"` // static: which of gz br zst exist next to the file
+	Pre      string   `json:"pre"`              // Content-Encoding the handler sets itself: none|gzip|br|zstd|deflate|identity
+	ETag     string   `json:"etag"`             // none|strong|weak
+	Ops      []string `json:"ops"`              // wS (5 bytes) wL (100 bytes) wX (70000 bytes) w0 f
+	Sibs     []string `json:"sibs"`             // static: which of gz br zst exist next to the file
 	Hidden   bool     `json:"hidden,omitempty"` // static: the file is on the site's hide list (it is the site's Casketfile)
 }
 
@@ -61,6 +61,8 @@ type gcase struct {
 	Method string `json:"method,omitempty"`
 	Inner  inner  `json:"inner"`
 	Model  model  `json:"model"`
+	// Overlap: not a case of the model but the overlapping-responses scenario (overlap_test.go)
+	Overlap bool `json:"overlap,omitempty"`
 }
 
 func (c gcfg) String() string {
@@ -240,6 +242,10 @@ func probeScript(in inner) string {
 	total := 0
 	for _, o := range in.Ops {
 		total += opBytes(o)
+	}
+	if len(in.Ops) > 0 && in.Ops[0] == "i" {
+		// Early Hints go out before the handler has prepared its response headers
+		ops = append(ops, "status:103")
 	}
 	if in.CT {
 		ops = append(ops, "hdr:Content-Type=text/plain")
@@ -586,10 +592,23 @@ func TestC18(t *testing.T) {
 	}
 	if rc, ok := hx.LoadReplay[gcase](t); ok {
 		res.Count("replay")
+		if rc.Overlap {
+			overlapPhase(res, root)
+			return
+		}
 		confirm(res, root, &rc)
 		return
 	}
 
+	// first of all (one site, three connections): responses that overlap in time; what this finds
+	// tends to bring the whole process down once ten sites are busy
+	if !hx.SelfTest() {
+		before := res.MismatchCount()
+		overlapPhase(res, root)
+		if res.Infra != "" || res.MismatchCount() > before {
+			return
+		}
+	}
 	cases := hx.LoadCases[gcase](t, "Gzip")
 	rnd := hx.Rand()
 	limit := 100000
